@@ -238,6 +238,7 @@ def run(prog):
                 out.append(inst("FS", key, OK, fn, cs.line, "fold of %s from its identity %s" % (op, ck)))
     out += reduce_defaults(prog)
     out += early_outs(prog)
+    out += list_ops_empty_case(prog, {r["key"] for r in out})
     if n < 8:
         raise CheckerError("FS: only %d accumulators recognised" % n)
     return out
@@ -356,4 +357,48 @@ def early_outs(prog):
                         verdict = OK if ck == "true" else VIOLATION
                         detail = "literal agreeing with the assignment makes its clause %s" % ck
             out.append(inst("FS", key, verdict, fn, None, detail))
+    return out
+
+
+def list_ops_empty_case(prog, have):
+    """`or_lst` / `and_lst` of an empty list are the neutral elements (an empty disjunction is ⊥, an empty conjunction ⊤).
+    When the list operation is a loop with an accumulator the seed rule above decides it; when it delegates to a combining
+    helper (`collapse_clauses`, a balanced reduction) that reports "nothing to combine" as `None`, or tests the list for
+    emptiness, the constant returned on that alternative is read off the return term, through a trailing negation."""
+    from .fd import alts, key_of
+    out = []
+    for name, want in (("or_lst", "false"), ("and_lst", "true")):
+        fns = [f for f in prog.lib_fns if f.name == name and "builder::bdd" in f.npath and "{closure" not in f.npath]
+        for fn in fns:
+            if any(k.startswith("FS:%s:" % fn.npath) for k in have):
+                continue          # the accumulator form: decided by its seed
+            te = fn.terms
+            key = "%s:empty-list" % fn.npath
+            found, errs = 0, []
+            for leaf, facts in alts(te, te.ret):
+                nothing = False
+                for c, v in facts:
+                    c0 = strip(c)
+                    if c0[0] == "discr" and mir.is_call(strip(c0[1])) and strip(c0[1])[1].local and v in ("0", ("not", ("1",))):
+                        nothing = True          # the combining helper returned None
+                    if mir.is_call(c0, "is_empty") and v not in ("0",):
+                        nothing = True
+                if not nothing:
+                    continue
+                found += 1
+                t, par = strip(leaf), 0
+                while mir.is_call(t, "neg") and t[2]:
+                    t, par = strip(t[2][0]), par ^ 1
+                k = const_kind(t)
+                if k not in ("true", "false"):
+                    errs.append("?the empty list gives %s" % show(leaf)[:50])
+                    continue
+                val = (k == "true") ^ bool(par)
+                if val != (want == "true"):
+                    errs.append("%s of an empty list is %s: an empty %s" % (name, "⊤" if val else "⊥",
+                                "disjunction is ⊥ (no disjunct holds)" if name == "or_lst" else "conjunction is ⊤"))
+            if not found:
+                errs.append("?no alternative for the empty list recognised")
+            from .base import verdict_of, errtext
+            out.append(inst("FS", key, verdict_of(errs), fn, None, errtext(errs) if errs else "%s([]) = %s" % (name, "⊥" if want == "false" else "⊤")))
     return out
